@@ -47,7 +47,7 @@ impl<I: Iterator> Iterator for Lying<I> {
 
 const HINTS: [usize; 8] = [0, 1, 4095, 4096, 4097, 1 << 32, usize::MAX, usize::MAX / 2];
 /// claims above the cap that an allocator could still satisfy, and claims around 2^63
-const HINTS2: [usize; 8] = [5000, 8192, 50_000, 100_000, 1 << 20, (1 << 63) + 1, usize::MAX - 1, 1 << 63];
+const HINTS2: [usize; 8] = [5000, 8192, 50_000, 100_000, 20_000, (1 << 63) + 1, usize::MAX - 1, 1 << 63];
 
 fn contents_map(m: &SMap) -> Vec<(u32, u64)> {
     let mut v: Vec<(u32, u64)> = m.iter().map(|(k, v)| (k.id(), v.get())).collect();
